@@ -16,11 +16,99 @@ pub enum Change {
 
 pub type Lib = BTreeMap<String, String>;
 
+/// how the server's graph gets its notes: all at start-up (`Graph::import`), at start-up and then every note
+/// re-sent through didChange with the same text (`update_key`), or all of them through didChange on an empty
+/// server.  The three are the same state by C04; the oracles of the other properties draw one per case so
+/// that a defect of the incremental path shows up in them too.
+#[derive(Clone, Copy, Debug, PartialEq)]
+pub enum Via {
+    Import,
+    Touch,
+    Incremental,
+    /// start-up with the texts rotated among the keys (note i holds the text of note i+1), then every note
+    /// set to its own text through didChange: every note had other links before, which the edits removed
+    Rotated,
+}
+
+thread_local! {
+    static VIA: std::cell::Cell<Via> = std::cell::Cell::new(Via::Import);
+}
+
+pub fn via_from(v: &serde_json::Value) -> Via {
+    match v.as_str().unwrap_or("") {
+        "Touch" => Via::Touch,
+        "Incremental" => Via::Incremental,
+        "Rotated" => Via::Rotated,
+        _ => Via::Import,
+    }
+}
+
+pub fn via_for(i: u64) -> Via {
+    match i % 4 {
+        0 => Via::Import,
+        1 => Via::Touch,
+        2 => Via::Incremental,
+        _ => Via::Rotated,
+    }
+}
+
+/// run `f` with every `server` / `server_with` built on this thread loading its notes by `via`
+pub fn with_via<T>(via: Via, f: impl FnOnce() -> T) -> T {
+    let old = VIA.with(|v| v.replace(via));
+    let out = f();
+    VIA.with(|v| v.set(old));
+    out
+}
+
 pub fn server(lib: &Lib, ext: &str, sequential: bool) -> Server {
+    let state: HashMap<String, String> = lib.iter().map(|(k, v)| (k.clone(), v.clone())).collect();
+    server_with(&state, ext, sequential)
+}
+
+/// a `Database` loaded the way the current `Via` says (see `server_with`)
+pub fn database_with(state: &HashMap<String, String>, ext: &str, sequential: bool) -> liwe::database::Database {
+    let via = VIA.with(|v| v.get());
+    let mut keys: Vec<&String> = state.keys().collect();
+    keys.sort();
+    let initial: HashMap<String, String> = match via {
+        Via::Incremental => HashMap::new(),
+        Via::Rotated => keys.iter().enumerate().map(|(i, k)| ((*k).clone(), state[keys[(i + 1) % keys.len()]].clone())).collect(),
+        _ => state.clone(),
+    };
+    let mut db = liwe::database::Database::new(initial, sequential, MarkdownOptions { refs_extension: ext.to_string() });
+    if via != Via::Import {
+        for k in keys {
+            db.update_document(liwe::model::Key::from_file_name(k), state[k].clone());
+        }
+    }
+    db
+}
+
+pub fn server_with(state: &HashMap<String, String>, ext: &str, sequential: bool) -> Server {
     let mut configuration = Configuration::default();
     configuration.markdown = MarkdownOptions { refs_extension: ext.to_string() };
-    let state: HashMap<String, String> = lib.iter().map(|(k, v)| (k.clone(), v.clone())).collect();
-    Server::new(ServerConfig { base_path: "/lib".to_string(), state, sequential_ids: Some(sequential), configuration, lsp_client: LspClient::Unknown })
+    let via = VIA.with(|v| v.get());
+    let initial = match via {
+        Via::Incremental => HashMap::new(),
+        Via::Rotated => {
+            let mut keys: Vec<&String> = state.keys().collect();
+            keys.sort();
+            keys.iter().enumerate().map(|(i, k)| ((*k).clone(), state[keys[(i + 1) % keys.len()]].clone())).collect()
+        }
+        _ => state.clone(),
+    };
+    let mut server = Server::new(ServerConfig { base_path: "/lib".to_string(), state: initial, sequential_ids: Some(sequential), configuration, lsp_client: LspClient::Unknown });
+    if via != Via::Import {
+        let mut keys: Vec<&String> = state.keys().collect();
+        keys.sort();
+        for k in keys {
+            server.handle_did_change_text_document(DidChangeTextDocumentParams {
+                text_document: VersionedTextDocumentIdentifier { uri: uri(k), version: 1 },
+                content_changes: vec![TextDocumentContentChangeEvent { range: None, range_length: None, text: state[k].clone() }],
+            });
+        }
+    }
+    server
 }
 
 pub fn uri(key: &str) -> Url {
